@@ -198,10 +198,10 @@ def resolve_dotted_path(dotted_path: str) -> object:
     module_name = names.pop(0)
     found = import_module(module_name)
     for name in names:
+        module_name += f".{name}"
         try:
             found = getattr(found, name)
         except AttributeError:
-            module_name += f".{name}"
             import_module(module_name)
             found = getattr(found, name)
     return found
